@@ -449,6 +449,9 @@ def clause_c(repo, chk):
 
 
 def run(repo, chk, tier):
+    from ..cacheown import check_persistent_state
+
+    check_persistent_state(repo, chk, ["tf_pwa/fitfractions.py", "tf_pwa/amp/amp.py"])
     clause_a(repo, chk)
     clause_b(repo, chk)
     clause_c(repo, chk)
